@@ -1,3 +1,4 @@
 import Driver.Util
 import Driver.Resolve
 import Driver.Sched
+import Driver.Output
